@@ -43,14 +43,14 @@ from specs import resolver_spec as rs
 ID = 'C12'
 LEVEL = 'exploration'
 P_TARGETS = []
-BUDGET = {'quick': 32.0, 'thorough': 420.0}
+BUDGET = {'quick': 32.0, 'thorough': 330.0}
 CHUNK = 12
 HASHSEEDS = ('0', '1', '4242')
 BOUNDS = {
-    'quick': {'strings': 'every second two-level case of C02 (graphs <= 4 nodes x orders x designs x all-atom/coarse x legacy), typed-in strings, '
-                         'multiplied units, virtual nodes, layered strings', 'permutations': 'all for <= 3 definitions per block, reversal + 7 seeded above',
-              'constructors': 4, 'shared_library_sequence': 3, 'hashseed_batches': 4, 'batch_size': 25, 'hashseeds': list(HASHSEEDS)},
-    'thorough': {'strings': 'all two-level cases of C02 (graphs <= 5 nodes) and all layered cases', 'permutations': 'all for <= 4 definitions per block, reversal + 7 seeded above',
+    'quick': {'strings': 'every fourth two-level case (graphs <= 4 nodes x orders x designs x all-atom/coarse x legacy, virtual nodes, multiplied units), '
+                         'all typed-in strings, every second layered string', 'permutations': 'all for <= 3 definitions per block, reversal + 7 seeded above',
+              'constructors': 4, 'shared_library_sequence': 3, 'hashseed_batches': 3, 'batch_size': 25, 'hashseeds': list(HASHSEEDS)},
+    'thorough': {'strings': 'every second two-level case (graphs <= 5 nodes, 2 repeats per cell, 4000 random trees) and every second layered case', 'permutations': 'all for <= 4 definitions per block, reversal + 7 seeded above',
                  'constructors': 4, 'shared_library_sequence': 3, 'hashseed_batches': 40, 'batch_size': 25, 'hashseeds': list(HASHSEEDS)},
 }
 EXHAUSTIVE = {'quick': False, 'thorough': False}
@@ -71,18 +71,19 @@ def cases(tier, seed):
     pool = []
     k = 0
     pf = 3 if tier == 'quick' else 4
-    for c in gr.two_level_cases(tier, seed):
+    for c in gr.two_level_cases(tier, seed, reps=1 if tier == 'quick' else 2):
         k += 1
         pool.append(c)
-        if tier == 'thorough' or k % 2 == 0 or c['design'] == 'hand':
+        if k % (4 if tier == 'quick' else 2) == 0 or c['design'] == 'hand':
             yield dict(c, kind='single', perm_full=pf)
     lay = list(gr.layered_cases(tier, seed))
-    for c in lay:
-        yield dict(c, kind='single', perm_full=pf)
+    for i, c in enumerate(lay):
+        if i % 2 == 0 or 'hand' in c['tags']:
+            yield dict(c, kind='single', perm_full=pf)
     pool += lay
     rng = random.Random(99)
     rng.shuffle(pool)
-    nb = 4 if tier == 'quick' else 40
+    nb = 3 if tier == 'quick' else 40
     for b in range(nb):
         batch = pool[b * 25:(b + 1) * 25]
         if batch:
